@@ -4,6 +4,9 @@ import MelModel.Lemmas.Swap
 import MelModel.SupplyDefs
 namespace Mel
 open Mel.Gen
+-- lemmas whose names also occur in other lemma files (Supply, Restart, TotalSeal) live in `Mel.SupplySealL`
+namespace SupplySealL end SupplySealL
+open SupplySealL
 
 /-! ### sums over association lists -/
 
@@ -56,7 +59,7 @@ def cw (d : Denom) (c : CoinDataHeight) : Nat := if c.coinData.denom = d then c.
 
 def CoinMap.Nodup (m : CoinMap) : Prop := (m.coins.map (·.1)).Nodup
 
-theorem coinsTotal_eq (m : CoinMap) (d : Denom) :
+theorem SupplySealL.coinsTotal_eq (m : CoinMap) (d : Denom) :
     coinsTotal m d = (m.coins.map fun e => cw d e.2).sum := by
   unfold coinsTotal
   induction m.coins with
@@ -104,7 +107,7 @@ theorem CoinMap.removeCoin_coins {m m' : CoinMap} {id : CoinID} {t : Bool} (h : 
     · cases h; rfl
   · cases h; rfl
 
-theorem CoinMap.getCoin_insertCoin_self (m : CoinMap) (id : CoinID) (c : CoinDataHeight) (t : Bool) :
+theorem SupplySealL.CoinMap.getCoin_insertCoin_self (m : CoinMap) (id : CoinID) (c : CoinDataHeight) (t : Bool) :
     (m.insertCoin id c t).getCoin id = some c := by
   unfold CoinMap.getCoin
   rw [CoinMap.insertCoin_coins]; exact AList.get_set_self _ _ _
@@ -200,12 +203,12 @@ theorem poolsTotal_setIf (pools : AList PoolKey PoolState) (c : Bool) (k : PoolK
 
 /-! ### the pool-key order is a strict total order, so `sortDedup` has no duplicates -/
 
-theorem bytesLt_irrefl (a : List UInt8) : bytesLt a a = false := by
+theorem SupplySealL.bytesLt_irrefl (a : List UInt8) : bytesLt a a = false := by
   cases h : bytesLt a a with
   | false => rfl
   | true => have := bytesLt_asymm a a h; rw [h] at this; cases this
 
-theorem bytesLt_trans : ∀ (a b c : List UInt8), bytesLt a b = true → bytesLt b c = true → bytesLt a c = true := by
+theorem SupplySealL.bytesLt_trans : ∀ (a b c : List UInt8), bytesLt a b = true → bytesLt b c = true → bytesLt a c = true := by
   intro a
   induction a with
   | nil =>
@@ -243,7 +246,7 @@ theorem bytesLt_trans : ∀ (a b c : List UInt8), bytesLt a b = true → bytesLt
               · simp only [hxz, hzx, if_false] at h2 ⊢
                 exact ih ys zs h1 h2
 
-theorem bytesLt_total : ∀ (a b : List UInt8), a ≠ b → bytesLt a b = false → bytesLt b a = true := by
+theorem SupplySealL.bytesLt_total : ∀ (a b : List UInt8), a ≠ b → bytesLt a b = false → bytesLt b a = true := by
   intro a
   induction a with
   | nil =>
@@ -266,21 +269,21 @@ theorem bytesLt_total : ∀ (a b : List UInt8), a ≠ b → bytesLt a b = false 
           simp only [hxy, if_false] at h ⊢
           exact ih ys (fun e => hne (by rw [e])) h
 
-theorem Denom.lt_irrefl (a : Denom) : a.lt a = false := by
+theorem SupplySealL.Denom.lt_irrefl (a : Denom) : a.lt a = false := by
   cases a <;> simp [Denom.lt, Denom.rank, bytesLt_irrefl]
 
-theorem Denom.lt_trans (a b c : Denom) (h1 : a.lt b = true) (h2 : b.lt c = true) : a.lt c = true := by
+theorem SupplySealL.Denom.lt_trans (a b c : Denom) (h1 : a.lt b = true) (h2 : b.lt c = true) : a.lt c = true := by
   cases a <;> cases b <;> cases c <;> simp_all [Denom.lt, Denom.rank]
   exact bytesLt_trans _ _ _ h1 h2
 
-theorem Denom.lt_total (a b : Denom) (hne : a ≠ b) (h : a.lt b = false) : b.lt a = true := by
+theorem SupplySealL.Denom.lt_total (a b : Denom) (hne : a ≠ b) (h : a.lt b = false) : b.lt a = true := by
   cases a <;> cases b <;> simp_all [Denom.lt, Denom.rank]
   exact bytesLt_total _ _ hne h
 
-theorem PoolKey.lt_irrefl (a : PoolKey) : a.lt a = false := by
+theorem SupplySealL.PoolKey.lt_irrefl (a : PoolKey) : a.lt a = false := by
   simp [PoolKey.lt, Denom.lt_irrefl]
 
-theorem PoolKey.lt_trans (a b c : PoolKey) (h1 : a.lt b = true) (h2 : b.lt c = true) : a.lt c = true := by
+theorem SupplySealL.PoolKey.lt_trans (a b c : PoolKey) (h1 : a.lt b = true) (h2 : b.lt c = true) : a.lt c = true := by
   unfold PoolKey.lt at *
   by_cases e1 : a.left = b.left
   · by_cases e2 : b.left = c.left
@@ -299,7 +302,7 @@ theorem PoolKey.lt_trans (a b c : PoolKey) (h1 : a.lt b = true) (h2 : b.lt c = t
         rw [Denom.lt_irrefl] at this; cases this
       · simp only [e3, if_false]; exact this
 
-theorem PoolKey.lt_total (a b : PoolKey) (hne : a ≠ b) (h : a.lt b = false) : b.lt a = true := by
+theorem SupplySealL.PoolKey.lt_total (a b : PoolKey) (hne : a ≠ b) (h : a.lt b = false) : b.lt a = true := by
   unfold PoolKey.lt at *
   by_cases e1 : a.left = b.left
   · simp only [e1, if_true] at h ⊢
@@ -313,7 +316,7 @@ theorem PoolKey.lt_total (a b : PoolKey) (hne : a ≠ b) (h : a.lt b = false) : 
 section sortDedup
 variable {α : Type} [DecidableEq α] (lt : α → α → Bool)
 
-theorem mem_insertSorted {x z : α} : ∀ {l : List α}, z ∈ insertSorted lt x l → z = x ∨ z ∈ l := by
+theorem SupplySealL.mem_insertSorted {x z : α} : ∀ {l : List α}, z ∈ insertSorted lt x l → z = x ∨ z ∈ l := by
   intro l
   induction l with
   | nil => intro h; simp [insertSorted] at h; exact Or.inl h
@@ -376,7 +379,7 @@ theorem sortDedup_nodup (hirr : ∀ a, lt a a = false)
 
 end sortDedup
 
-theorem extractPoolKeysSorted_nodup (txs : List Tx) : (extractPoolKeysSorted txs).Nodup :=
+theorem SupplySealL.extractPoolKeysSorted_nodup (txs : List Tx) : (extractPoolKeysSorted txs).Nodup :=
   sortDedup_nodup _ PoolKey.lt_irrefl PoolKey.lt_trans PoolKey.lt_total _
 
 
@@ -934,7 +937,7 @@ theorem phase_inv (s0 : State) (reqs : List Tx) (step : PoolKey → State → Li
 
 /-! ### what the selectors guarantee, in full -/
 
-theorem isSwapRequest_full {s : State} {tx : Tx} (h : isSwapRequest s tx = true) :
+theorem SupplySealL.isSwapRequest_full {s : State} {tx : Tx} (h : isSwapRequest s tx = true) :
     tx.kind = .swap ∧ ∃ k o rest c, tx.outputs = o :: rest ∧ canonicalPoolKey tx.data = some k ∧
       s.coins.getCoin ⟨tx.hash, 0⟩ = some c ∧ (o.denom = k.left ∨ o.denom = k.right) := by
   unfold isSwapRequest at h
@@ -955,7 +958,7 @@ theorem isSwapRequest_full {s : State} {tx : Tx} (h : isSwapRequest s tx = true)
       · simp only [Bool.and_eq_true, Bool.or_eq_true, decide_eq_true_eq] at h3
         exact ⟨k, o0, rest, c, ho, hk, hc, h3.2⟩
 
-theorem isDepositRequest_full {s : State} {tx : Tx} (h : isDepositRequest s tx = true) :
+theorem SupplySealL.isDepositRequest_full {s : State} {tx : Tx} (h : isDepositRequest s tx = true) :
     tx.kind = .liqDeposit ∧ ∃ k o0 o1 rest c0 c1, tx.outputs = o0 :: o1 :: rest ∧
       canonicalPoolKey tx.data = some k ∧
       s.coins.getCoin ⟨tx.hash, 0⟩ = some c0 ∧ s.coins.getCoin ⟨tx.hash, 1⟩ = some c1 ∧
@@ -977,7 +980,7 @@ theorem isDepositRequest_full {s : State} {tx : Tx} (h : isDepositRequest s tx =
       exact ⟨k, o0, o1, rest, c0, c1, ho, hk, hc0, hc1, h3.1, h3.2⟩
   · cases h2
 
-theorem isWithdrawRequest_full {env : Env} {s : State} {tx : Tx} (h : isWithdrawRequest env s tx = true) :
+theorem SupplySealL.isWithdrawRequest_full {env : Env} {s : State} {tx : Tx} (h : isWithdrawRequest env s tx = true) :
     tx.kind = .liqWithdraw ∧ ∃ k o0 c0, tx.outputs = [o0] ∧ canonicalPoolKey tx.data = some k ∧
       s.coins.getCoin ⟨tx.hash, 0⟩ = some c0 ∧ o0.denom = liqTokenDenom env k := by
   unfold isWithdrawRequest at h
@@ -1005,7 +1008,7 @@ theorem canonical_sides {data : Bytes} {k : PoolKey} (h : canonicalPoolKey data 
   rw [e, bytesLt_irrefl] at h1
   cases h1
 
-theorem mem_sortDedup {α : Type} [DecidableEq α] (lt : α → α → Bool) {z : α} {l : List α}
+theorem SupplySealL.mem_sortDedup {α : Type} [DecidableEq α] (lt : α → α → Bool) {z : α} {l : List α}
     (h : z ∈ sortDedup lt l) : z ∈ l := by
   have key : ∀ (l acc : List α), z ∈ l.foldl (fun acc x => insertSorted lt x acc) acc → z ∈ acc ∨ z ∈ l := by
     intro l
@@ -1022,7 +1025,7 @@ theorem mem_sortDedup {α : Type} [DecidableEq α] (lt : α → α → Bool) {z 
   · cases h
   · exact h
 
-theorem mem_extractPoolKeysSorted {txs : List Tx} {k : PoolKey} (h : k ∈ extractPoolKeysSorted txs) :
+theorem SupplySealL.mem_extractPoolKeysSorted {txs : List Tx} {k : PoolKey} (h : k ∈ extractPoolKeysSorted txs) :
     ∃ tx ∈ txs, canonicalPoolKey tx.data = some k := by
   have := mem_sortDedup _ h
   simpa [List.mem_filterMap] using this
